@@ -363,7 +363,7 @@ class DocGen:
                     # inline content outside any paragraph / an unknown wrapper that declares a default namespace: well-formed, not schema-valid
                     return r.choice([self.run(d), '<block xmlns="urn:x-unknown">' + self.par(d) + '</block>', self.run(d) + self.run(d)])
                 return r.choice(['<w:bookmarkStart w:id="4" w:name="z"/>', '<w:altChunk r:id="rId50"/>' if not self.p.get('no_r') else '<w:bookmarkEnd w:id="4"/>',
-                                 '<m:oMathPara><m:oMath><m:r><m:t>z</m:t></m:r></m:oMath></m:oMathPara>', self.comment_marker()])
+                                 '<m:oMathPara><m:oMath><m:r><m:t>' + (esc(self.text()) if self.p.get('tokens') else 'z') + '</m:t></m:r></m:oMath></m:oMathPara>', self.comment_marker()])
         return self.par(d)
 
     # -- parts
